@@ -40,12 +40,21 @@ func propC11(c *Ctx) propInfo {
 func (c *Ctx) adnlLayouts() {
 	const R = "E7.bytelayout"
 	// Packet.marshal: LE32(len+64) | nonce32 | payload | sha256
+	// the length word: produced by the one-line helper Packet.size and copied in, or written in place by marshal
+	sizeFn := c.fn("liteclient", "Packet.size")
 	if f := c.mustFn(R, "liteclient", "Packet.marshal"); f != nil {
+		first := byteField{"", "4", "copy", "size"}
+		if sizeFn == nil {
+			first = byteField{"", "4", "LE32", "+32)+32)"}
+		}
 		c.layoutIs(R, "Packet.marshal = size4 | nonce32 | payload | hash32", f, c.byteWrites(f), []byteField{
-			{"", "4", "copy", "size"}, {"4", "36", "copy", "nonce"}, {"36", "(36+len(*_.Payload))", "copy", "Payload"}, {"(36+len(*_.Payload))", "", "copy", "hash"},
+			first, {"4", "36", "copy", "nonce"}, {"36", "(36+len(*_.Payload))", "copy", "Payload"}, {"(36+len(*_.Payload))", "", "copy", "hash"},
 		})
+		if sizeFn == nil {
+			c.ok(R, "Packet.size = LE32(len(payload)+64)", f.Pos(), "written in place by Packet.marshal: LE32(len(payload)+32+32) at [0:4] (checked by the layout rule)")
+		}
 	}
-	if f := c.mustFn(R, "liteclient", "Packet.size"); f != nil {
+	if f := sizeFn; f != nil {
 		ws := c.byteWrites(f)
 		okv := len(ws) == 1 && ws[0].how == "LE32" && strings.Contains(ws[0].what, "+32)+32)")
 		c.check(okv, R, "Packet.size = LE32(len(payload)+64)", f.Pos(), "little-endian 32-bit length of nonce+payload+checksum", "Packet.size no longer encodes len(payload)+32+32 as a little-endian 32-bit word: "+fieldsString(ws))
